@@ -319,8 +319,13 @@ E_MIN, SPIN_MIN, OBL_MIN = 1.0e-6, 1.0e-6, 1.0e-3
 
 
 def _lazy_axes():
+    # spin/n: exact special values (synchronous, resonances, retrograde, zero), anywhere in [-3, 3], and NEAR a commensurability:
+    # r (1 +- 10^[-12,-2]) - nearly but not exactly synchronous / resonant rotation (pseudo-synchronous states, a spin sweep
+    # passing a resonance), where one mode frequency is a small non-zero difference of two large terms
+    near = st.tuples(st.sampled_from([1.0, 1.0, 1.0, -1.0, 1.5, 2.0, 0.5]), st.floats(-12.0, -2.0), st.booleans()) \
+        .map(lambda t: t[0] * (1.0 + (1.0 if t[2] else -1.0) * 10.0 ** t[1]))
     spin = weighted([st.sampled_from([1.0, -1.0, 1.5, 2.0, 0.5, 0.0, 3.0, -3.0]),
-                     st.floats(-3.0, 3.0).filter(_away_from_zero(SPIN_MIN))], [1, 2])
+                     st.floats(-3.0, 3.0).filter(_away_from_zero(SPIN_MIN)), near], [2, 4, 1])
     ecc = weighted([st.just(0.0), st.floats(1.0e-3, 0.5), st.floats(1.0e-3, 0.12),
                     st.floats(math.log10(E_MIN), -3.0).map(lambda x: 10.0 ** x)], [2, 10, 2, 1])
     obl = weighted([st.just(0.0), st.floats(OBL_MIN, math.pi / 2), st.floats(OBL_MIN, 0.3)], [1, 2, 1])
